@@ -32,7 +32,8 @@ def run(ctx):
                 "reported inflections are zeros of the derivative inside the interval, aabr/aabb equal [min,max] per "
                 "axis in curve coordinates, closest-point search returns the curve point at its parameter, no farther "
                 "than any coarse sample and the end point; discretised length on f64 with witnessed chord / polygon "
-                "lengths: chord <= L_n <= polygon, L_n <= L_2n; non-trivial = all records (each has a distinct curve)")
+                "lengths: chord <= L_n <= polygon, L_n <= L_2n; f64 quadratics with non-dyadic coordinates and their degree-elevated "
+                "cubics (leading derivative coefficient a rounding residue): bounding box = closed-form box of the quadratic to 2^-7 tenths; non-trivial = all records (each has a distinct curve)")
     thorough = ctx.tier == "thorough"
     core.law_runs(ctx, "Law_Bezier", ["Law_Bezier"])
     n = 400 if thorough else 40
@@ -46,7 +47,7 @@ def run(ctx):
     for k in need:
         if not cls.get(k):
             ctx.vacuous.append("branch class never generated: " + k)
-    core.drive_validate(ctx, "bezlen", "Trace_Bezier", "Trace_Bezier_Z", "bezlen", n, ["bez_length", "bez_search"], key=key,
+    core.drive_validate(ctx, "bezlen", "Trace_Bezier", "Trace_Bezier_Z", "bezlen", n, ["bez_length", "bez_search", "bez_elev_f"], key=key,
                         corrupt=corrupt_len)
     ctx.assumptions = ["curves with irrational derivative roots are not examined (the witness must be rational); every "
                        "branch of the case analysis of the code is reached with rational roots",
